@@ -649,6 +649,19 @@ example : Wf stAB ∧ DisjointIds stAB.items := by
   · simp only [e0, e1] at hix hiy; revert hix hiy; simp; intro h; subst h; decide
   · exact hxy rfl
 
+/-- hypothesis of `lookup_sound` / `never_disjoint`: such a lookup has an answer -/
+example : ∃ e, getSettings stAB cfgA' = some (stAB, e) := by
+  obtain ⟨_, e, _, _, _, _, h⟩ := lookup_complete stAB cfgA' ⟨_, List.mem_cons_self, "a1", by decide, by decide⟩
+  exact ⟨e, h⟩
+
+/-- hypotheses of `roundtrip`: a FileStorage whose content changed; of `changed_iff` /
+    `roundtrip_history`: an injective hash exists (the driver's identity) -/
+example : changed (fun d => d)
+    ({ kind := .file, items := [(0, applyCfg cfgB dflt)], next := 1, savedHash := [], file := none } :
+      Store (List Dump)) = true := by decide
+
+example : ∀ a b : List Dump, (fun d => d) a = (fun d => d) b → a = b := fun _ _ h => h
+
 /-- a bridging configuration shares identifiers with both devices: only
     `lookup_sound` / `lookup_complete` speak about it -/
 example : Shares (applyCfg cfgA dflt) (cfgIds cfgBridge) ∧ Shares (applyCfg cfgB dflt) (cfgIds cfgBridge) :=
